@@ -70,9 +70,28 @@ var swCases6 = []swCase{
 	{"server_id", []string{"duid-ll", "00:11:22:33:44:55:66:77"}, 2, []byte{0, 3, 0, 1, 0x00, 0x11, 0x22, 0x33, 0x44, 0x55, 0x66, 0x77}},
 }
 
+// swReject4: one past the largest value the option's wire field holds (and a
+// mask with a hole): accepting one of these means sending something else.
+var swReject4 = []swCase{
+	{"mtu", []string{"65536"}, 26, nil},
+	{"lease_time", []string{"4294967296s"}, 51, nil},
+	{"lease_time", []string{"1193046h28m16s"}, 51, nil},
+	{"ipv6only", []string{"4294967296s"}, 108, nil},
+	{"netmask", []string{"255.0.255.0"}, 1, nil},
+	{"mtu", []string{"-1"}, 26, nil},
+}
+
 // VerifH_setupwire4: configuration text -> option bytes, DHCPv4.
 func VerifH_setupwire4() {
-	c := swCases4[vnd.Pick("case", 0, len(swCases4)-1)]
+	ci := vnd.Pick("case", 0, len(swCases4)+len(swReject4)-1)
+	if ci >= len(swCases4) {
+		c := swReject4[ci-len(swCases4)]
+		_, err := subjects4[c.plugin].p.Setup4(c.args...)
+		vnd.Cover("refused")
+		vnd.Assert(err != nil, "C17 a value the option's wire field cannot carry is refused at start-up, not sent as something else")
+		return
+	}
+	c := swCases4[ci]
 	h, err := subjects4[c.plugin].p.Setup4(c.args...)
 	vnd.Assert(err == nil && h != nil, "C19 a configuration that can be honoured is accepted")
 	vnd.Assert(err == nil && h != nil, "C17 a valid configuration is accepted")
